@@ -27,11 +27,16 @@ TARGETS2 = {"S": "s <<= {e}", "O": "self.o <<= {e}", "V": "v @= {e}", "P": "self
 TARGETS1 = {"PN0": "self.pn[0] ^= {e}", "S0": "s[0] <<= {e}", "M": "mem[self.b] <<= {e}", "M1": "mem[1] <<= {e}", "S10": "s[1:0][1] <<= {e}"}
 EXPR2 = {"a": "self.a", "s": "s", "v": "v", "s1": "s + 1", "v1": "v + 1", "o": "self.o", "k2": "2", "fa": "pick(self.a)", "fs": "pick(s)",
          "ie": "(self.a if self.c else s)", "ga": "pick2(self.a)", "gs": "pick2(s)", "ha": "pick3(self.a)"}
-EXPR1 = {"c": "self.c", "s0": "s[0]", "mb": "mem[self.b]", "a1": "self.a[1]", "v0": "v[0]"}
+EXPR1 = {"c": "self.c", "s0": "s[0]", "mb": "mem[self.b]", "a1": "self.a[1]", "v0": "v[0]",
+         # alternatives that are different parts of the same object (if-expression / helper return merge)
+         "sx": "(self.a[0] if self.c else self.a[1])", "pb": "pickbit()", "mx": "(mem[0] if self.c else mem[1])"}
 CONDS = {"c": "self.c", "s0": "s[0]", "v0": "v[0]", "mb": "mem[self.b]", "ae": "self.a == 2", "cmp": "v < self.a"}
 ALW = {"a": "self.a", "s": "s", "sa": "s ^ self.a", "s1": "s + 1"}
 
 FOR_SRC = {
+    # a reference taken with a run-time (variable) index keeps the index value it was created with
+    "R1": ["slot = mem[vi]", "vi @= vi + 1", "slot <<= self.c"],
+    "R2": ["slot = mem[vi]", "vi @= vi + 1", "self.o <<= slot @ slot"],
     "F1": ["for i in range(2):", "    if self.a[i]:", "        s <<= i + 1", "        break"],
     "F2": ["for i in range(2):", "    if self.a[i]:", "        s <<= i + 1", "        break", "else:", "    s <<= 3"],
     "F3": ["self.o <<= first_set()"],
@@ -87,6 +92,10 @@ def ev1(e, st, inp):
         return (a >> 1) & 1
     if e == "v0":
         return st["v"] & 1
+    if e in ("sx", "pb"):
+        return (a & 1) if c else (a >> 1) & 1
+    if e == "mx":
+        return st["mem"][0] if c else st["mem"][1]
     if e == "ae":
         return int(a == 2)
     if e == "cmp":
@@ -104,6 +113,7 @@ class Ref:
         self.ond = None
         self.onr = 0
         self.onr2 = 0
+        self.onrr = 0
         self.orst = 0
         self.reset_state()
 
@@ -111,14 +121,15 @@ class Ref:
         self.st = {"s": 0, "mem": (0, 0), "v": 0, "o": 0}
         self.p = 0
         self.pn = 0
+        self.vi = 0
 
     def snapshot(self):
         st = self.st
-        return (st["s"], st["mem"], st["v"], st["o"], self.p, self.ond, self.onr, self.orst, self.onr2, self.pn)
+        return (st["s"], st["mem"], st["v"], st["o"], self.p, self.ond, self.onr, self.orst, self.onr2, self.pn, self.onrr, self.vi)
 
     def restore(self, sn):
         self.st = {"s": sn[0], "mem": sn[1], "v": sn[2], "o": sn[3]}
-        self.p, self.ond, self.onr, self.orst, self.onr2, self.pn = sn[4:]
+        self.p, self.ond, self.onr, self.orst, self.onr2, self.pn, self.onrr, self.vi = sn[4:]
 
     def do_reset(self):
         pn = self.pn  # noreset: keeps its value while reset is active
@@ -136,6 +147,8 @@ class Ref:
         """continuously driven outputs for the current state and inputs"""
         st = self.st
         d = {"oc": st["s"] ^ inp[0], "os": st["s"], "om0": st["mem"][0], "om1": st["mem"][1]}
+        if self.c04:
+            d["onrr"] = self.onrr
         alw = find_alw(self.prog)
         d["oa"] = ev2(alw, st, inp) if alw is not None else 0
         return d
@@ -211,6 +224,14 @@ class Ref:
                     elif k == "F2":
                         nxt["s"] = 3
                         sbits.clear()
+                elif k == "R1":
+                    nmem[self.vi] = inp[2]
+                    mem_written = True
+                    self.vi ^= 1
+                elif k == "R2":
+                    bit = st["mem"][self.vi]
+                    nxt["o"] = bit * 3
+                    self.vi ^= 1
                 elif k == "F3":
                     a = inp[0]
                     nxt["o"] = 1 if a & 1 else 2 if a & 2 else 0
@@ -242,6 +263,7 @@ class Ref:
             self.ond = inp[0]
             self.onr = inp[0]
             self.onr2 = inp[0]
+            self.onrr = inp[0]
             self.orst = 1
         return self.regs()
 
@@ -259,7 +281,8 @@ def _partial_then_whole_ok(prog):
 
 # ---------------------------------------------------------------------------------
 def render(prog, reset=None, entity="T", locals_in_body=False, c04=False, on_reset=False):
-    L = ["from cohdl import std, Entity, Port, Bit, BitVector, Unsigned, Signal, Variable, Array", "import cohdl", "",
+    L = ["from __future__ import annotations", "from cohdl import std, Entity, Port, Bit, BitVector, Unsigned, Signal, Variable, Array", "import cohdl", "",
+         "class RecNR(std.Record):", "    f: Unsigned[2]", "    g: Bit", "",
          f"class {entity}(Entity):", "    clk = Port.input(Bit)"]
     if reset is not None:
         L.append("    rst = Port.input(Bit)")
@@ -270,11 +293,15 @@ def render(prog, reset=None, entity="T", locals_in_body=False, c04=False, on_res
           "    om0 = Port.output(Bit)", "    om1 = Port.output(Bit)"]
     if c04:
         L += ["    ond = Port.output(Unsigned[2])", "    onr = Port.output(Unsigned[2], default=0, noreset=True)",
-              "    onr2 = Port.output(Unsigned[2], default=0, noreset=True)", "    orst = Port.output(Unsigned[2], default=0)"]
+              "    onr2 = Port.output(Unsigned[2], default=0, noreset=True)", "    orst = Port.output(Unsigned[2], default=0)",
+              "    onrr = Port.output(Unsigned[2])"]
     if reset is not None and reset.get("step_cond"):
         L.append("    en = Port.input(Bit)")
     L += ["    def architecture(self):",
           "        s = Signal[Unsigned[2]](0)", "        mem = Signal[Array[Bit, 2]]([False, False])", "        v = Variable[Unsigned[2]](0)",
+          "        vi = Variable[Unsigned[1]](0)",
+          "        def pickbit():", "            if self.c:", "                return self.a[0]", "            return self.a[1]",
+          *(["        nrr = std.NoresetSignal[RecNR](f=0, g=False)"] if c04 else []),
           "        def pick(x):", "            if self.c:", "                return x", "            return x + 1",
           "        def pick2(x):", "            if self.c:", "                pass", "            else:", "                return x + 1",
           "            return x",
@@ -287,6 +314,8 @@ def render(prog, reset=None, entity="T", locals_in_body=False, c04=False, on_res
           "            self.om0 <<= mem[0]", "            self.om1 <<= mem[1]"]
     if find_alw(prog) is None:
         L.append("            self.oa <<= Unsigned[2](0)")
+    if c04:
+        L.append("            self.onrr <<= nrr.f")
     if c04 and on_reset:
         L += ["        def on_rst():", "            self.orst <<= 3"]
     onr = ", on_reset=on_rst" if (c04 and on_reset) else ""
@@ -294,11 +323,16 @@ def render(prog, reset=None, entity="T", locals_in_body=False, c04=False, on_res
         L.append("        @std.sequential(std.Clock(self.clk))")
     else:
         sc = ", step_cond=lambda: self.en" if reset.get("step_cond") else ""
-        L.append(f"        @std.sequential(std.Clock(self.clk), std.Reset(self.rst, is_async={reset['is_async']}, active_low={reset['active_low']}){sc}{onr})")
-    L += ["        def proc():", "            nonlocal s, v"]
+        if reset.get("with_params"):
+            # process created from a derived context: the on_reset actions of the base context must survive with_params()
+            L.append(f"        base_ctx = std.SequentialContext(std.Clock(self.clk), std.Reset(self.rst, is_async={reset['is_async']}, active_low={reset['active_low']}){onr})")
+            L.append("        @base_ctx.with_params(step_cond=lambda: self.en)")
+        else:
+            L.append(f"        @std.sequential(std.Clock(self.clk), std.Reset(self.rst, is_async={reset['is_async']}, active_low={reset['active_low']}){sc}{onr})")
+    L += ["        def proc():", "            nonlocal s, v, vi"]
     if c04:
         L += ["            self.ond <<= self.a", "            self.onr <<= self.a", "            self.orst <<= 1",
-              "            self.onr2[0] <<= self.a[0]", "            self.onr2[1:1] <<= self.a[1:1]"]
+              "            self.onr2[0] <<= self.a[0]", "            self.onr2[1:1] <<= self.a[1:1]", "            nrr.f <<= self.a"]
     L += block(prog, 3)
     L.append("")
     return "\n".join(L)
@@ -352,7 +386,7 @@ def atoms(level):
     if level == 0:
         t2 = [("S", "a"), ("S", "s1"), ("S", "v"), ("O", "s"), ("O", "v"), ("O", "a"), ("V", "v1"), ("V", "a"), ("V", "s"), ("P", "a"),
               ("P", "v"), ("S", "fa"), ("O", "ie"), ("PN", "a"), ("O", "ga"), ("S", "gs"), ("O", "ha")]
-        t1 = [("S0", "c"), ("M", "c"), ("M1", "s0"), ("S0", "mb"), ("PN0", "c")]
+        t1 = [("S0", "c"), ("M", "c"), ("M1", "s0"), ("S0", "mb"), ("PN0", "c"), ("S0", "sx"), ("M1", "pb"), ("S0", "mx")]
     else:
         t2 = [(t, e) for t in TARGETS2 for e in EXPR2]
         t1 = [(t, e) for t in TARGETS1 for e in EXPR1]
@@ -365,7 +399,7 @@ def programs(size, level=0, conds=("c", "s0", "v0")):
     if size == 1:
         for a in at:
             yield (a,)
-        for f in ("F1", "F2", "F3", "F4"):
+        for f in ("F1", "F2", "F3", "F4", "R1", "R2"):
             yield ((f,),)
         return
     if size == 2:
@@ -375,7 +409,7 @@ def programs(size, level=0, conds=("c", "s0", "v0")):
         for c in conds:
             for x in at:
                 yield (("if", c, (x,), None),)
-        for f in ("F1", "F2", "F3", "F4"):
+        for f in ("F1", "F2", "F3", "F4", "R1", "R2"):
             for x in small:
                 yield ((f,), x)
                 yield (x, (f,))
